@@ -86,6 +86,53 @@ var (
 	genesis = constants.GENESIS_BLOCK_TIMESTAMP
 )
 
+func pow2(n uint) *big.Int              { return new(big.Int).Lsh(big.NewInt(1), n) }
+func plus(a *big.Int, d int64) *big.Int { return new(big.Int).Add(a, big.NewInt(d)) }
+
+// boundaryValues: stored base-unit amounts at the edges of the two record encodings (uint64 count
+// of whole tokens / big-integer bytes): around 2^64 and its multiples, whole-token offsets from
+// them, 2^63, the whole supply.  Values above the supply are still useful as call amounts.
+func boundaryValues(tok string) []*big.Int {
+	e9 := int64(1000000000)
+	if tok == "ONT" { // the ONT supply (10^18 base units) is below 2^63: the edges are the whole-token ones
+		c := capOf(tok)
+		return []*big.Int{plus(c, -1), c, plus(c, 1), pow2(32), new(big.Int).Mul(pow2(32), scale), plus(new(big.Int).Mul(pow2(32), scale), 1),
+			big.NewInt(e9 - 1), big.NewInt(e9), big.NewInt(e9 + 1), plus(new(big.Int).Div(c, big.NewInt(2)), 1), pow2(59), two64}
+	}
+	l := []*big.Int{
+		plus(two64, -1), two64, plus(two64, 1), plus(two64, e9), plus(two64, 7*e9), plus(two64, 1000*e9), plus(two64, e9-1),
+		new(big.Int).Mul(two64, big.NewInt(2)), plus(new(big.Int).Mul(two64, big.NewInt(3)), 5*e9),
+		pow2(63), plus(pow2(63), e9), pow2(96), plus(capOf(tok), -1), capOf(tok), plus(capOf(tok), 1),
+		plus(pow2(32), 0), plus(new(big.Int).Mul(pow2(32), scale), 0),
+	}
+	return l
+}
+
+// lowWordWhole: h*2^64 + j*10^9 - fractional amounts whose low 64-bit word is a whole-token count.
+func (g *sgen) lowWordWhole(max *big.Int) *big.Int {
+	hmax := new(big.Int).Div(max, two64)
+	if hmax.Sign() <= 0 {
+		return plus(new(big.Int).Mul(g.randBig(big.NewInt(1000000)), scale), int64(g.c.Intn(2)))
+	}
+	h := plus(g.randBig(hmax), 1)
+	j := big.NewInt(int64(g.c.Intn(18446744073)))
+	v := new(big.Int).Mul(h, two64)
+	v.Add(v, j.Mul(j, scale))
+	if v.Cmp(max) > 0 {
+		return new(big.Int).Set(two64)
+	}
+	return v
+}
+
+// boundary picks a boundary stored value for the token (below or at max when possible).
+func (g *sgen) boundary(tok string, max *big.Int) *big.Int {
+	if g.c.Intn(3) == 0 {
+		return g.lowWordWhole(max)
+	}
+	l := boundaryValues(tok)
+	return new(big.Int).Set(l[g.c.Intn(len(l))])
+}
+
 func capOf(tok string) *big.Int {
 	if tok == "ONG" {
 		return ongCap
@@ -152,6 +199,11 @@ func (g *sgen) initState() jState {
 				continue
 			}
 			v := g.stateAmount(tok, lim)
+			if tok == "ONG" && a != ontC && g.c.Intn(3) == 0 {
+				if b := g.boundary(tok, lim); b.Cmp(lim) <= 0 {
+					v = plus(b, int64(g.c.Intn(3))*int64(g.c.Intn(1000000000)))
+				}
+			}
 			if tok == "ONG" && a == ontC && g.c.Intn(4) != 0 {
 				v = new(big.Int).Div(lim, big.NewInt(int64(1+g.c.Intn(3))))
 			}
@@ -169,7 +221,13 @@ func (g *sgen) initState() jState {
 				continue
 			}
 			seen[hexOf(o)+hexOf(s)] = true
-			st.Allow[tok] = append(st.Allow[tok], jAllow{hexOf(o), hexOf(s), g.stateAmount(tok, new(big.Int).Div(capOf(tok), big.NewInt(4))).String()})
+			av := g.stateAmount(tok, new(big.Int).Div(capOf(tok), big.NewInt(4)))
+			if tok == "ONG" && g.c.Intn(3) == 0 {
+				if b := g.boundary(tok, capOf(tok)); b.Cmp(capOf(tok)) <= 0 {
+					av = b
+				}
+			}
+			st.Allow[tok] = append(st.Allow[tok], jAllow{hexOf(o), hexOf(s), av.String()})
 		}
 	}
 	d := config.GetOntHolderUnboundDeadline()
@@ -358,6 +416,54 @@ func (g *sgen) next(d *dump, now *uint32, v2on bool) jCall {
 		k.Sender, k.From, k.To = hexOf(sender), hexOf(from), hexOf(to)
 		k.Value = g.callAmount(k.Tok, k.V2, d.bal(k.Tok, from), d.allow(k.Tok, from, sender)).String()
 		k.Signers = g.signers(sender)
+	}
+	// V2 boundary amounts: make the credited side, the debited side or the allowance end up at a
+	// stored value on the edge of the two record encodings (2^64, its multiples, whole supply ...)
+	if k.V2 && g.c.Intn(4) == 0 {
+		T := g.boundary(k.Tok, capOf(k.Tok))
+		aim := func(fromH, toH string) (string, bool) {
+			fb, tb := d.bal(k.Tok, addrOf(fromH)), d.bal(k.Tok, addrOf(toH))
+			switch g.c.Intn(3) {
+			case 0: // credited side ends at T
+				if v := new(big.Int).Sub(T, tb); v.Sign() > 0 && fromH != toH {
+					return v.String(), true
+				}
+			case 1: // debited side ends at T
+				if v := new(big.Int).Sub(fb, T); v.Sign() > 0 && fromH != toH {
+					return v.String(), true
+				}
+			}
+			return T.String(), true // the amount itself
+		}
+		switch k.Kind {
+		case "transfer":
+			for i := range k.States {
+				if v, ok := aim(k.States[i].From, k.States[i].To); ok {
+					k.States[i].Value = v
+				}
+			}
+			if len(k.States) == 1 && g.c.Intn(3) == 0 {
+				// the same credit split in two movements whose running sum crosses the boundary
+				v := bigOf(k.States[0].Value)
+				if v.Cmp(big.NewInt(2)) > 0 {
+					a := plus(g.randBig(plus(v, -1)), 1)
+					k.States = []jTS{{k.States[0].From, k.States[0].To, a.String()}, {k.States[0].From, k.States[0].To, new(big.Int).Sub(v, a).String()}}
+				}
+			}
+		case "approve":
+			k.Value = T.String()
+			if g.c.Intn(2) == 0 {
+				k.Value = plus(T, int64(g.c.Intn(5))).String() // a later transferFrom of 0..4 lands on T
+			}
+		default:
+			if g.c.Intn(2) == 0 {
+				if v := new(big.Int).Sub(d.allow(k.Tok, addrOf(k.From), addrOf(k.Sender)), T); v.Sign() > 0 {
+					k.Value = v.String() // the allowance ends at T
+				}
+			} else if v, ok := aim(k.From, k.To); ok {
+				k.Value = v
+			}
+		}
 	}
 	// call stack below the token contract: none (the test-style direct call), an entry script,
 	// contract -> contract chains 2-4 deep.  The debited account is often put somewhere in the
